@@ -177,6 +177,17 @@ impl<'tcx> D<'tcx> {
                 ExpnKind::Root => "root".into(),
             };
             self.j.kstr("x", &x);
+            // full macro backtrace (innermost first), so that e.g. `debug_assert!` around a panic is recognisable
+            let chain: Vec<String> = sp
+                .macro_backtrace()
+                .filter_map(|e| match e.kind {
+                    ExpnKind::Macro(_, name) => Some(name.to_string()),
+                    _ => None,
+                })
+                .collect();
+            if chain.len() > 1 {
+                self.j.kstr("xs", &chain.join(">"));
+            }
         }
     }
 
